@@ -318,6 +318,58 @@ func pickStarve(v int) func(n *Net, rng *rand.Rand, d []int) int {
 	}
 }
 
+// hold: the k-th delivery (in emission order) of message type typ is made only when nothing else can be delivered;
+// everything else arrives in emission order (one slow packet)
+func pickHold(typ string, k int) func(n *Net, rng *rand.Rand, d []int) int {
+	held := -1
+	seen := map[int]bool{}
+	count := 0
+	return func(n *Net, rng *rand.Rand, d []int) int {
+		if held < 0 {
+			for _, idx := range d {
+				dl := n.Pending[idx]
+				if shortType(dl.Msg.Type()) == typ && !seen[dl.Seq] {
+					seen[dl.Seq] = true
+					if count == k {
+						held = dl.Seq
+					}
+					count++
+				}
+			}
+		}
+		for _, idx := range d {
+			if n.Pending[idx].Seq != held {
+				return idx
+			}
+		}
+		return d[0]
+	}
+}
+
+// the message types delivered in a finished run, in order of first appearance
+func deliveredTypes(n *Net) []string {
+	var out []string
+	seen := map[string]bool{}
+	for _, d := range n.Delivered {
+		t := shortType(d.Msg.Type())
+		if !seen[t] {
+			seen[t] = true
+			out = append(out, t)
+		}
+	}
+	return out
+}
+
+// holdStrategies: one strategy per message type, holding one delivery of that type (a different one per call)
+func holdStrategies(types []string, rng *rand.Rand) []Strategy {
+	var out []Strategy
+	for _, t := range types {
+		k := rng.Intn(4)
+		out = append(out, Strategy{Name: fmt.Sprintf("hold-%s#%d", t, k), Pick: pickHold(t, k)})
+	}
+	return out
+}
+
 // future-first: the most recently emitted message types first, per recipient (messages arrive rounds early)
 func pickFutureFirst(n *Net, rng *rand.Rand, d []int) int {
 	best := d[0]
